@@ -60,7 +60,8 @@ package pubsub
 
 // doAddBackoff records max(existing expiry, now + interval) and touches nothing else.
 //@ func (*GossipSubRouter).doAddBackoff
-//@   property C08 C13
+//@   property C08 C13 C12
+//@   safe
 //@   requires sep: sepBackoff(gs)
 //@   requires period: interval >= 0
 //@   modifies map(gs.backoff), maps(gs.backoff), clock
@@ -74,7 +75,8 @@ package pubsub
 //@ spec fn validBackoffParams(gs *GossipSubRouter) bool = gs.params.PruneBackoff >= 0 && gs.params.UnsubscribeBackoff >= 0
 
 //@ func (*GossipSubRouter).addBackoff
-//@   property C08
+//@   property C08 C12
+//@   safe
 //@   requires sep: sepBackoff(gs)
 //@   requires params: validBackoffParams(gs)
 //@   modifies map(gs.backoff), maps(gs.backoff), clock
@@ -259,7 +261,8 @@ package pubsub
 //@ ghost var nPrune mmap[string]mmap[string]int
 
 //@ func (*GossipSubRouter).sendGraft
-//@   property C07 C08
+//@   property C07 C08 C12
+//@   safe
 //@   requires wf: wfGS(gs)
 //@   noframe
 //@   modifies nGraft
@@ -271,7 +274,8 @@ package pubsub
 //@        len($arg4) == 0 && len($arg0) == 0 && len($arg1) == 0 && len($arg2) == 0 && len($arg5) == 0
 
 //@ func (*GossipSubRouter).sendPrune
-//@   property C07 C08
+//@   property C07 C08 C12
+//@   safe
 //@   requires wf: wfGS(gs)
 //@   noframe
 //@   modifies nPrune
@@ -391,7 +395,8 @@ package pubsub
 // fanout set and from the pending gossip/control/outbound/unwanted tables; nobody else is
 // touched; backoff entries are kept (departures do not reset the backoff).
 //@ func (*GossipSubRouter).OnClosedOutboundStream
-//@   property C07 C13 C08 C16
+//@   property C07 C13 C08 C16 C12
+//@   safe
 //@   requires sep: sepMesh(gs) && sepFanout(gs) && gs.tagTracer != nil
 //@   requires extensions-state: gs.extensions != nil && gs.extensions.sentExtensions != nil && gs.extensions.peerExtensions != nil
 //@   noframe
@@ -406,6 +411,9 @@ package pubsub
 //@   loop 1 step mesh-protection-released: forall t string :: iter(has(gs.mesh, t, p)) && !has(gs.mesh, t, p) ==>
 //@        calls((*tagTracer).untagMeshPeer) == iter(calls((*tagTracer).untagMeshPeer)) + 1 && lastarg((*tagTracer).untagMeshPeer, 1) == p && lastarg((*tagTracer).untagMeshPeer, 2) == t
 //@   ensures closed-traced: calls((*pubsubTracer).OnClosedOutboundStream) == old(calls((*pubsubTracer).OnClosedOutboundStream)) + 1 && lastarg((*pubsubTracer).OnClosedOutboundStream, 1) == p
+//@   ensures extension-state-told: calls((*extensionsState).OnClosedOutboundStream) - old(calls((*extensionsState).OnClosedOutboundStream)) == ite(firstret(dyn:feature), 1, 0) &&
+//@        (firstret(dyn:feature) ==> lastarg((*extensionsState).OnClosedOutboundStream, 1) == p)
+//@   at call feature#1 assert extensions-feature-of-that-peer: $arg0 == GossipSubFeatureExtensions && $arg1 == gs.peers[p]
 //@   ensures gone-from-peers: !(p in gs.peers)
 //@   ensures gone-from-meshes: forall t string :: !has(gs.mesh, t, p)
 //@   ensures gone-from-fanout: forall t string :: !has(gs.fanout, t, p)
@@ -531,6 +539,7 @@ package pubsub
 //@   at call computeChecksum assert within-cap: totalUnwantedIds <= gs.params.MaxIDontWantLength && totalUnwantedIds >= 1
 //@   loop 1 invariant table: unwanted == nil || (p in gs.unwanted && gs.unwanted[p] == unwanted)
 //@   loop 2 invariant table: unwanted == nil || (p in gs.unwanted && gs.unwanted[p] == unwanted)
+//@   loop 2 step earlier-declarations-kept: forall c checksum :: iter(has(gs.unwanted, p, c)) ==> has(gs.unwanted, p, c)
 //@   loop 2 step remembered-for-ttl: has(gs.unwanted, p, csum(mid)) && gs.unwanted[p][csum(mid)] == gs.params.IDontWantMessageTTL
 //@   ensures flood-protected: old(gs.peerdontwant[p]) >= old(gs.params.MaxIDontWantMessages) && (ctl != nil && len(old(ctl.Idontwant)) > 0) ==>
 //@        gs.peerdontwant[p] == old(gs.peerdontwant[p]) && calls(computeChecksum) == old(calls(computeChecksum))
@@ -852,7 +861,8 @@ package pubsub
 //@ spec fn graftTopic(g *pb.ControlGraft) string = ite(g == nil || g.TopicID == nil, "", deref(g.TopicID))
 //@ spec fn pruneTopic(g *pb.ControlPrune) string = ite(g == nil || g.TopicID == nil, "", deref(g.TopicID))
 //@ func (*GossipSubRouter).piggybackControl
-//@   property C07 C08
+//@   property C07 C08 C12
+//@   safe
 //@   requires args: out != nil
 //@   noframe
 //@   ensures mesh-untouched: gs.mesh == old(gs.mesh) && (forall t string, q string :: has(gs.mesh, t, q) == old(has(gs.mesh, t, q)))
@@ -878,7 +888,8 @@ package pubsub
 
 // pushControl: only GRAFT/PRUNE are kept for a retry (gossip is never retried), for that peer only.
 //@ func (*GossipSubRouter).pushControl
-//@   property C07 C08 C17
+//@   property C07 C08 C17 C12
+//@   safe
 //@   requires args: ctl != nil && gs.control != nil
 //@   noframe
 //@   ensures gossip-not-retried: len(ctl.Ihave) == 0 && len(ctl.Iwant) == 0 && len(ctl.Idontwant) == 0
@@ -895,7 +906,8 @@ package pubsub
 // of the topic's mesh, never to the peer the messages came from, and only to peers for which the
 // v1.2 IDONTWANT feature test just answered yes.
 //@ func (*GossipSubRouter).Preprocess
-//@   property C17
+//@   property C17 C12
+//@   safe
 //@   requires wf: wfGS(gs) && gs.mesh != nil && (forall i int :: 0 <= i && i < len(msgs) ==> msgs[i] != nil && msgs[i].Message != nil)
 //@   noframe
 //@   at call (*msgIDGenerator).ID assert only-large-messages: $arg1 != nil && $arg1.Message != nil && len($arg1.Message.Data) >= gs.params.IDontWantMessageThreshold
@@ -920,7 +932,8 @@ package pubsub
 //@ spec fn sameEntry(gs *GossipSubRouter, q string, c checksum) bool =
 //@      has(gs.unwanted, q, c) == old(has(gs.unwanted, q, c)) && (has(gs.unwanted, q, c) ==> gs.unwanted[q][c] == old(gs.unwanted[q][c]))
 //@ func (*GossipSubRouter).clearIDontWantCounters
-//@   property C17 C13
+//@   property C17 C13 C12
+//@   safe
 //@   requires sep: sepUnwanted(gs)
 //@   modifies gs.peerdontwant, map(gs.unwanted), maps(gs.unwanted)
 //@   loop 1 invariant aged: forall q string, c checksum :: $visited[q] ==> agedEntry(gs, q, c)
@@ -945,7 +958,8 @@ package pubsub
 // makePrune for that peer and topic, with peer exchange only if enabled and not vetoed (noPX)
 // for that peer, and never as an unsubscribe PRUNE.
 //@ func (*GossipSubRouter).sendGraftPrune
-//@   property C07 C08 C09
+//@   property C07 C08 C09 C12
+//@   safe
 //@   requires wf: wfGS(gs) && tograft != nil && toprune != nil && tograft != toprune
 //@   noframe
 //@   loop 2 invariant grafts-listed: len(graft) == rangeindex + 1 && len(graft) <= len(topics) && fresh(graft) &&
@@ -973,7 +987,8 @@ package pubsub
 // never writes into an RPC shared with other recipients; the published messages, subscriptions
 // and every control list are the original's.
 //@ func copyRPC
-//@   property C06 C11
+//@   property C06 C11 C12
+//@   safe
 //@   requires arg: rpc != nil
 //@   modifies nothing
 //@   ensures own-header: result != nil && fresh(result) && result.from == rpc.from
